@@ -2166,6 +2166,7 @@ impl SpeechRules {
             #[cfg(mathcat_verif)]
             verif::log_reloaded();
             self.rules.clear();
+            self.rule_files.ft.clear();          // nothing is loaded until the read succeeds (a failed read is retried)
             let files_read = self.read_patterns(&rule_file)?;
             self.rule_files.set_files_and_times(files_read);
         }
@@ -2179,7 +2180,9 @@ impl SpeechRules {
             #[cfg(mathcat_verif)]
             verif::log_reloaded();
             self.unicode_short.borrow_mut().clear();
-            self.unicode_short_files.borrow_mut().set_files_and_times(self.read_unicode(None, true)?);
+            self.unicode_short_files.borrow_mut().ft.clear();
+            let files_read = self.read_unicode(None, true)?;
+            self.unicode_short_files.borrow_mut().set_files_and_times(files_read);
         }
 
         #[cfg(mathcat_verif)]
@@ -2190,7 +2193,9 @@ impl SpeechRules {
         ) {
             #[cfg(mathcat_verif)]
             verif::log_reloaded();
-            self.definitions_files.borrow_mut().set_files_and_times(read_definitions_file(self.name != RulesFor::Braille)?);
+            self.definitions_files.borrow_mut().ft.clear();
+            let files_read = read_definitions_file(self.name != RulesFor::Braille)?;
+            self.definitions_files.borrow_mut().set_files_and_times(files_read);
         }
         return Ok( () );
     }
@@ -2595,7 +2600,9 @@ impl<'c, 's:'c, 'r, 'm:'c> SpeechRulesWithContext<'c, 's,'m> {
                     verif::log_reloaded();
                     info!("*** Loading full unicode {} for char '{}'/{:#06x}", rules.name, ch, ch_as_u32);
                     rules.unicode_full.borrow_mut().clear();
-                    rules.unicode_full_files.borrow_mut().set_files_and_times(rules.read_unicode(None, false)?);
+                    rules.unicode_full_files.borrow_mut().ft.clear();
+                    let files_read = rules.read_unicode(None, false)?;
+                    rules.unicode_full_files.borrow_mut().set_files_and_times(files_read);
                     info!("# Unicode defs = {}/{}", rules.unicode_short.borrow().len(), rules.unicode_full.borrow().len());
                 }
                 unicode = rules.unicode_full.borrow();
